@@ -209,12 +209,35 @@ func runC18Reg(c *Ctx) {
 							continue
 						}
 						c.J.Log("CASE %s nick=%q ident=%q name=%q pass=%q cap=%v tracking=%v", Case("reg", idx), nick, ident, name, pass, capn, tracking)
-						cfg := client.NewConfig(nick, ident, name)
 						s := NewSession(SessionOpts{Flood: true})
-						// build the client from our own config (NewSession's defaults do not fit here)
+						// build the client ourselves (NewSession's defaults do not fit here), through each of the
+						// constructors in turn; everything else is set through Config() afterwards
+						var conn *client.Conn
+						ident, name, nick := ident, name, nick
+						ctor := []string{"Client(NewConfig(nick, ident, name))", "SimpleClient(nick, ident, name)", "SimpleClient(nick)", "Client(nil)"}[(idx/2)%4]
+						switch (idx / 2) % 4 {
+						case 0:
+							conn = client.Client(client.NewConfig(nick, ident, name))
+						case 1:
+							conn = client.SimpleClient(nick, ident, name)
+						case 2:
+							conn = client.SimpleClient(nick)
+						default:
+							conn = client.Client(nil)
+						}
+						cfg := conn.Config()
+						if (idx/2)%4 >= 2 {
+							// the defaults the constructor chose are the client's identity: they must exist
+							if cfg.Me == nil || cfg.Me.Nick == "" || cfg.Me.Ident == "" || cfg.Me.Name == "" || ((idx/2)%4 == 2 && cfg.Me.Nick != nick) {
+								c.R.Violate(rig.Violation{Sig: "c18|constructor-identity", Detail: fmt.Sprintf("%s left the client with identity %+v", ctor, cfg.Me), Case: Case("reg", idx)})
+								s.Release()
+								idx++
+								continue
+							}
+							nick, ident, name = cfg.Me.Nick, cfg.Me.Ident, cfg.Me.Name
+						}
 						cfg.Server, cfg.Proxy, cfg.Flood, cfg.PingFreq = "irc.test", s.EP.ProxyURL(idx%2 == 0), true, 0
 						cfg.Pass, cfg.EnableCapabilityNegotiation = pass, capn
-						conn := client.Client(cfg)
 						if tracking {
 							conn.EnableStateTracking()
 						}
@@ -255,7 +278,7 @@ func runC18Reg(c *Ctx) {
 							// (nothing but the sync PING has been sent by the server so far)
 							c.R.Eval(1)
 							if strings.Join(got, "\n") != strings.Join(want, "\n") {
-								c.R.Violate(rig.Violation{Sig: "c18|registration-lines", Detail: fmt.Sprintf("connect %d: first wire lines %q, want %q", ordinal, got, want), Case: Case("reg", idx)})
+								c.R.Violate(rig.Violation{Sig: "c18|registration-lines", Detail: fmt.Sprintf("connect %d of a client built with %s: first wire lines %q, want %q", ordinal, ctor, got, want), Case: Case("reg", idx)})
 							}
 							c.R.Class(fmt.Sprintf("reg|nick%d|ident%d|pass=%v|cap=%v|tracking=%v|connect%d", ni, ii, pass != "", capn, tracking, ordinal))
 							if capn && (ni+ii)%2 == 0 {
